@@ -17,6 +17,10 @@ PARTS = {
       C('cmp-values', 'base', 'dom=all', 'grid=small'),
       C('cmp-int-asan', 'asan', 'dom=int', 'grid=small'),
       C('cmp-values-asan', 'asan', 'dom=float,string,type,rawall,recycled,reptuple,mixed', 'grid=small'),
+      # containers constructed with OTHER element / key / value types and then given their contents by assign(), as left and right
+      # operands next to directly built containers of the same contents (a comparison or size remembered from construction is stale)
+      C('cmp-converted', 'base', 'dom=converted', 'grid=small'),
+      C('cmp-converted-asan', 'asan', 'dom=converted', 'grid=small'),
     ],
     'thorough': [
       C('cmp-int-float-type', 'base', 'dom=int,float,type,recycled,reptuple,mixed', 'grid=large'),
@@ -34,6 +38,8 @@ PARTS = {
       C('cmp-rawsizes-b-asan', 'asan', 'dom=raw12,raw16', 'grid=large'),
       C('cmp-rawsizes-c-asan', 'asan', 'dom=raw20,raw21', 'grid=large'),
       C('cmp-rawbig-asan', 'asan', 'dom=rawbig', 'grid=large'),
+      C('cmp-converted', 'base', 'dom=converted', 'grid=large'),
+      C('cmp-converted-asan', 'asan', 'dom=converted', 'grid=large'),
     ],
   },
   'C10': {
@@ -60,7 +66,12 @@ RULES = {
           'involving a zero, a denormal or an infinity; String pair where one is a prefix of the other or the first differing byte is >= 0x80; '
           'Type names sharing a prefix; struct pair (sizes 1,3,4,7,8,9,12,16,20,21 and 63,64,65,72,100,127,128,129,200,300 bytes) whose first differing byte is >= 0x80 or is the last byte) + triples that form a strict chain a<b<c or a>b>c in the '
           'reference order (transitivity premise holds) + completed Tree/Table insert/lookup/iterate/remove histories over the grid + generations of a run-time record type '
-          '(sizes cycling 8,32,16,64,4,24,12,100, first operation cmp / eq / gt) that came back at the address of the deleted previous type with another size'),
+          '(sizes cycling 8,32,16,64,4,24,12,100, first operation cmp / eq / gt) that came back at the address of the deleted previous type with another size '
+          '+ assign-converted containers (dom=converted): ordered pairs of container operands in which at least one side is an Array / List / Table / Tree that was constructed with '
+          'another element (key / value) type - empty or holding two elements - and then received its contents by assign() from a container of the final types '
+          '(final element types Int, Float, String and a user type with its own Cmp that also converts to an integer; first types: the other three and a 12-byte plain struct), '
+          'judged against the lexicographic reference over the contents next to directly built Arrays, Lists, Tuples, Trees and Tables of every content '
+          '(sequences of length <= 2/3 over three values; partial maps over 2/3 keys and two values; Tables with two or more entries only against a fresh Table assigned from the same source)'),
   'C10': ('value-type grids (h_hash.c): distinct_nontrivial = (value, allocation class / operation) cases in which the object under test is a '
           'different object from the stack witness (heap, root, Array/List element, Table/Tree key and value, copy, assign into fresh / into an '
           'object holding another value, both sides of swap on heap / stack / Array-embedded objects (guard elements and canary zones must keep every byte), Array element against stack object, Array sort of the whole grid; plain structs of 1,3,4,7,8,9,12,16,20,21 bytes exercise every tail length of the default memcmp/hash_data/memcpy/memswap, structs of 63,64,65,72,100,127,128,129,200,300 bytes every remainder of a 64/128-byte block-wise copy) + pairs of different representations of equal values (signed zeros, Type twins) + '
